@@ -146,6 +146,18 @@ theorem ColSim.pushDiag {c' c : Col α} (h : ColSim uws c' c) {d' d : Diag} (hd 
   ⟨h.1, h.2, h.3, h.4, h.5, h.6, h.7, h.8, h.9, h.10, h.11, h.12, h.13, h.14, h.15, h.16,
     by simp only [Array.toList_push]; exact h.diags.append (.cons hd .nil), h.18, h.19⟩
 
+/-- proves the `ColSim` fields that are untouched from `h`; leaves the changed ones -/
+syntax "colsim " ident : tactic
+macro_rules
+  | `(tactic| colsim $h:ident) => `(tactic|
+    (constructor <;>
+      (first
+        | exact ($h).sections | exact ($h).cur | exact ($h).ingredients | exact ($h).cookware | exact ($h).timers
+        | exact ($h).inlineQ | exact ($h).locIngr | exact ($h).locCw | exact ($h).metaMap | exact ($h).frontMatter
+        | exact ($h).metaLocs | exact ($h).servings | exact ($h).defineMode | exact ($h).duplicateMode
+        | exact ($h).oldStyle | exact ($h).oldStyleUsed | exact ($h).diags | exact ($h).stepCounter
+        | exact ($h).block | skip)))
+
 theorem ARel.aerr (kind : String) {l' l : List Span} (h : l'.length = l.length) :
     ARel (α := α) uws (fun _ _ => True) (aerr kind l') (aerr kind l) :=
   ⟨fun _ _ hs => ⟨trivial, hs.pushDiag ⟨rfl, rfl, rfl, h⟩⟩⟩
@@ -183,6 +195,7 @@ macro "arel" : tactic => `(tactic|
   repeat (first
     | arel_leaf
     | apply ARel.ite
+    | apply ARel.panicIfK
     | apply ARel.bind
     | (intro _ _ h; subst h)
     | intro _ _ _
@@ -267,5 +280,159 @@ theorem resolveInterRef_arel {d' d : Loc InterData} (h : d'.val = d.val) :
   intro s' s hs
   simp only [hs.cur, hs.sections, h]
   cases interRefTarget s.cur.content s.sections.length d.val <;> arel
+
+theorem noteReferenceError_arel (input' input : Str) (a' a b' b : Span) (c' c : Option Span) :
+    ARel (α := α) uws (fun _ _ => True) (noteReferenceError input' a' b' c') (noteReferenceError input a b c) := by
+  unfold noteReferenceError
+  cases c' <;> cases c <;> arel
+
+theorem ingrInterChecks_arel {i' i : PIngredient α} (igr : Ingredient (ScalableValue α)) :
+    ARel (α := α) uws (fun _ _ => True) (ingrInterChecks i' igr) (ingrInterChecks i igr) := by
+  unfold ingrInterChecks
+  arel
+
+theorem ingrInter_arel {i' i : PIngredient α} (igr : Ingredient (ScalableValue α)) {d' d : Loc InterData}
+    (h : d'.val = d.val) : ARel (α := α) uws Eq (ingrInter i' igr d') (ingrInter i igr d) := by
+  unfold ingrInter
+  apply ARel.bind (ingrInterChecks_arel _)
+  intro _ _ _
+  apply ARel.bind (resolveInterRef_arel h)
+  intro r' r hr
+  subst hr
+  cases r' <;> exact ARel.pure rfl
+
+theorem getElem?_of_size_eq {β γ : Type} {a : Array β} {b : Array γ} (h : a.size = b.size) (i : Nat) :
+    (a[i]? = none ∧ b[i]? = none) ∨ ∃ x y, a[i]? = some x ∧ b[i]? = some y := by
+  by_cases hi : i < b.size
+  · right
+    exact ⟨a[i]'(h ▸ hi), b[i], by simp [h ▸ hi], by simp [hi]⟩
+  · left
+    constructor
+    · simp; omega
+    · simp; omega
+
+theorem ingrUnitChecks_arel (env : Env) {i' i : PIngredient α} (newQ : Quantity (ScalableValue α)) (idxs : List Nat) :
+    ARel (α := α) uws (fun _ _ => True) (ingrUnitChecks env i' newQ idxs) (ingrUnitChecks env i newQ idxs) := by
+  unfold ingrUnitChecks
+  apply ARel.bind ARel.get
+  intro s' s hs
+  simp only [hs.ingredients]
+  apply ARel.bind (R := Eq)
+  · apply ARel.forIn
+    intro idx u
+    rcases getElem?_of_size_eq hs.locIngr idx with ⟨e', e⟩ | ⟨x, y, e', e⟩
+    · rw [e', e]
+      cases s.ingredients[idx]? <;> arel
+    · rw [e', e]
+      cases s.ingredients[idx]? with
+      | none => arel
+      | some other =>
+        dsimp only
+        cases other.quantity with
+        | none => arel
+        | some q =>
+          dsimp only
+          cases compatibleUnit env q.unit newQ.unit with
+          | none => arel
+          | some _ =>
+            dsimp only
+            apply ARel.panicIfK
+            arel
+  · arel
+
+macro_rules | `(tactic| arel_leaf) => `(tactic| exact ingrUnitChecks_arel ..)
+macro_rules | `(tactic| arel_leaf) => `(tactic| exact noteReferenceError_arel ..)
+
+theorem ingrRefChecks_arel (env : Env) (input' input : Str) {li' li : Loc (PIngredient α)}
+    (h : PIngredientSim env.cs.uws li'.val li.val) (igr : Ingredient (ScalableValue α)) (refTo : Nat)
+    (defn : Ingredient (ScalableValue α)) (defLoc' defLoc : Loc (PIngredient α)) :
+    ARel (α := α) uws (fun _ _ => True) (ingrRefChecks env input' li' igr refTo defn defLoc')
+      (ingrRefChecks env input li igr refTo defn defLoc) := by
+  unfold ingrRefChecks
+  dsimp only
+  rcases h.note.elim with ⟨e', e⟩ | ⟨x', x, e', e, hx⟩ <;> rw [e', e] <;>
+    cases igr.quantity <;> cases defn.quantity <;> dsimp only <;> arel
+
+theorem ingrSetReferencedFrom_arel (refTo newIndex : Nat) (defn : Ingredient (ScalableValue α)) :
+    ARel (α := α) uws (fun _ _ => True) (ingrSetReferencedFrom refTo newIndex defn)
+      (ingrSetReferencedFrom refTo newIndex defn) := by
+  unfold ingrSetReferencedFrom
+  cases defn.relation.relation with
+  | reference _ => exact ARel.apanic _ _
+  | definition rf b =>
+    dsimp only
+    apply ARel.modify
+    intro c' c hc
+    colsim hc
+    show c'.ingredients.setIfInBounds _ _ = c.ingredients.setIfInBounds _ _
+    rw [hc.ingredients]
+
+theorem ingrRegular_arel (env : Env) (input' input : Str) {li' li : Loc (PIngredient α)}
+    (h : PIngredientSim env.cs.uws li'.val li.val) (igr0 : Ingredient (ScalableValue α)) :
+    ARel (α := α) uws Eq (ingrRegular env input' li' igr0) (ingrRegular env input li igr0) := by
+  unfold ingrRegular
+  apply ARel.bind ARel.get
+  intro s' s hs
+  simp only [hs.ingredients]
+  apply ARel.bind (resolveReference_arel _ _ _ _ _ _ _ _ _ _)
+  intro r' r hr
+  subst hr
+  cases r'.2 with
+  | none => exact ARel.pure rfl
+  | some o =>
+    dsimp only
+    apply ARel.bind ARel.get
+    intro t' t ht
+    simp only [ht.ingredients]
+    rcases getElem?_of_size_eq ht.locIngr o.refTo with ⟨e', e⟩ | ⟨x, y, e', e⟩
+    · rw [e', e]
+      cases t.ingredients[o.refTo]? <;> arel
+    · rw [e', e]
+      cases t.ingredients[o.refTo]? with
+      | none => arel
+      | some defn =>
+        dsimp only
+        apply ARel.bind (ingrRefChecks_arel env input' input h _ _ _ _ _)
+        intro _ _ _
+        apply ARel.bind (ingrSetReferencedFrom_arel _ _ _)
+        intro _ _ _
+        exact ARel.pure rfl
+
+theorem ingrBuild_arel (env : Env) (input' input : Str) {li' li : Loc (PIngredient α)}
+    (h : PIngredientSim env.cs.uws li'.val li.val) (igr0 : Ingredient (ScalableValue α)) :
+    ARel (α := α) uws Eq (ingrBuild env input' li' igr0) (ingrBuild env input li igr0) := by
+  unfold ingrBuild
+  apply ARel.bind (R := Eq)
+  · rcases h.inter.elim with ⟨e', e⟩ | ⟨x', x, e', e, hx⟩
+    · rw [e', e]; exact ingrRegular_arel env input' input h igr0
+    · rw [e', e]; exact ingrInter_arel igr0 hx
+  intro g' g hg
+  subst hg
+  apply ARel.bind (R := fun _ _ => True)
+  · apply ARel.modify
+    intro c' c hc
+    colsim hc
+    · show c'.ingredients.push _ = c.ingredients.push _
+      rw [hc.ingredients]
+    · show (c'.locIngr.push _).size = (c.locIngr.push _).size
+      simp [hc.locIngr]
+  intro _ _ _
+  apply ARel.bind ARel.get
+  intro t' t ht
+  rw [ht.ingredients]
+  exact ARel.pure rfl
+
+theorem ingredientA_arel (env : Env) (input' input : Str) {li' li : Loc (PIngredient α)}
+    (h : PIngredientSim env.cs.uws li'.val li.val) :
+    ARel (α := α) uws Eq (ingredientA env input' li') (ingredientA env input li) := by
+  unfold ingredientA
+  simp only [h.name.trimmed, optTrimmed_eq h.alias, optTrimmed_eq h.note, h.modifiers]
+  apply ARel.bind (optQuantityOf_arel env h.quantity true)
+  intro q' q hq
+  subst hq
+  apply ARel.bind ARel.get
+  intro s' s hs
+  rw [hs.defineMode]
+  exact ingrBuild_arel env input' input h _
 
 end Cook
